@@ -228,12 +228,13 @@ var pbackends = []dnsfix.Backend{dnsfix.RDBv1, dnsfix.RDBv2}
 
 // dbCore is the sub-alphabet from which the larger real-database files are drawn:
 // one % line per map, the indented % line, the SOA serial variants, one ordinary line.
-var dbCore = []string{"net-m1-10-8", "net-c1-v6def", "sp-net", "Z-empty", "Z-ser42", "Z-ser0", "a", "Z-short"}
+var dbCore = []string{"net-m1-10-8", "net-c1-v6def", "sp-net", "Z-empty", "Z-ser0", "a", "Z-ser42", "Z-short"}
 
 // dbSpace decides, deterministically, which files are compared on a real
-// RocksDB: every sequence of <= kAll lines over the full alphabet, plus every
-// file of kAll+1 .. kCore lines drawn from dbCore in alphabet order (one
-// representative per set of lines). The set is closed under taking subsequences.
+// RocksDB: every SET of <= kAll lines of the full alphabet and every set of
+// <= kCore lines of the first coreSize lines of dbCore, each set written once,
+// in alphabet order (all orders are covered by the parsed-stream comparison).
+// The space is closed under taking subsequences.
 type dbSpace struct {
 	kAll, kCore int
 	core        map[int]bool
@@ -257,14 +258,14 @@ func newDBSpace(kAll, kCore, coreSize int) *dbSpace {
 }
 
 func (d *dbSpace) contains(s []int) bool {
-	if len(s) <= d.kAll {
-		return true
-	}
-	if len(s) > d.kCore {
+	if len(s) > d.kAll && len(s) > d.kCore {
 		return false
 	}
 	for k, i := range s {
-		if !d.core[i] || (k > 0 && s[k-1] >= i) {
+		if k > 0 && s[k-1] >= i {
+			return false
+		}
+		if len(s) > d.kAll && !d.core[i] {
 			return false
 		}
 	}
